@@ -262,6 +262,34 @@ def extract(repo):
     else:
         raise ValueError("EXPR__out: string_ case: call of breakLongStr not recognised")
 
+    # ---- declarations: which simple types get ( precision ) / FIXED printed; does ALGargs_out compare VAR when it merges parameters
+    pt = _strip_c_comments(open(os.path.join(repo, "src/exppp/pretty_type.c")).read())
+    tbo = _body(pt, r"void\s+TYPE_body_out\s*\([^)]*\)\s*\{")
+    swm = re.search(r"switch\s*\(\s*tb->type\s*\)\s*\{", tbo)
+    if not swm:
+        raise ValueError("TYPE_body_out: switch( tb->type ) not found")
+    swb = _body(tbo[swm.start():], r"switch\s*\(\s*tb->type\s*\)\s*\{")
+    after = tbo[swm.start() + tbo[swm.start():].index(swb) + len(swb):]
+    kinds_all = ["INTEGER", "REAL", "STRING", "BINARY", "BOOLEAN", "LOGICAL", "NUMBER"]
+    if re.search(r"tb->precision", after) and re.search(r"tb->flags\.fixed", after):
+        prec_kinds = kinds_all
+    else:
+        helpers = [m.group(1) for m in re.finditer(r"(?:static\s+)?void\s+(\w+)\s*\(\s*TypeBody\s+\w+\s*\)\s*\{", pt)
+                   if "->precision" in _body(pt, r"void\s+" + m.group(1) + r"\s*\(\s*TypeBody\s+\w+\s*\)\s*\{")]
+        prec_kinds = []
+        for cm in re.finditer(r"case\s+(\w+)_\s*:(.*?)break\s*;", swb, re.S):
+            if any(re.search(r"\b" + h + r"\s*\(", cm.group(2)) for h in helpers) or "tb->precision" in cm.group(2):
+                # consecutive case labels share the block
+                labels = re.findall(r"case\s+(\w+)_\s*:", cm.group(0))
+                prec_kinds += [l.upper() for l in labels if l.upper() in kinds_all]
+        if not helpers and not prec_kinds and "tb->precision" not in tbo:
+            prec_kinds = []
+    pa = _strip_c_comments(open(os.path.join(repo, "src/exppp/pretty_alg.c")).read())
+    ab = _body(pa, r"void\s+ALGargs_out\s*\([^)]*\)\s*\{")
+    if not re.search(r"previoustype\s*(?:!=|==)\s*v->type", ab):
+        raise ValueError("ALGargs_out: comparison of previoustype with v->type not found")
+    merge_var = bool(re.search(r"previousVAR\s*!=\s*v->flags\.var", ab))
+
     L = []
     L.append("-- GENERATED by tools/extract.d/expprec.py from src/express/expparse.y (+ generated/expparse.c), src/express/expr.c,")
     L.append("-- src/exppp/pretty_expr.c, pretty_expr.h, pretty_where.c, exppp.c")
@@ -297,6 +325,10 @@ def extract(repo):
     L.append(f"def splitLiteralParen : Bool := {'true' if split_paren else 'false'}")
     L.append("/-- operators whose expression, as operand of an index qualifier, is printed in parentheses (`EXPRindex_paren`) -/")
     L.append("def indexParenOps : List String := " + _llist([_lstr(o) for o in index_ops]))
+    L.append("/-- simple types after which `TYPE_body_out` prints `( precision )` and `FIXED` -/")
+    L.append("def precisionKinds : List String := " + _llist([_lstr(k) for k in prec_kinds]))
+    L.append("/-- `ALGargs_out` starts a new parameter group when the VAR flag changes (not only when the type object changes) -/")
+    L.append(f"def argsMergeChecksVar : Bool := {'true' if merge_var else 'false'}")
     L.append(f"def nestingIndent : Nat := {nesting}")
     L.append(f"def continuationIndent : Nat := {cont}")
     L.append(f"def defaultLineLength : Nat := {ll}")
